@@ -104,3 +104,18 @@ def obligation(pid, ints=None):
     return Ob(pid + ".T", "call tree: every function of the anchor modules computes what its reviewed transcription computes (canonical forms; organised differently => undecided)",
               lambda ctx: call_tree(ctx, pid, ints), floor=max(1, transcribed_count(pid)), engines="SYM",
               breaks_if="inputs reaching the named function's changed component")
+
+
+def ref_name(fi):
+    return "q__" + fi.qualname[len(fi.module.name) + 1:].replace(".", "__").replace("<", "").replace(">", "")
+
+
+def is_reviewed(fi):
+    """the function is part of the reviewed transcription of its module (or the module has none: nothing to tell apart)"""
+    tree = _tree(fi.module.name)
+    if tree is None:
+        return True
+    key = "names:" + fi.module.name
+    if key not in _TREES:
+        _TREES[key] = {n.name for n in tree.body if isinstance(n, ast.FunctionDef)}
+    return ref_name(fi) in _TREES[key]
